@@ -408,7 +408,7 @@ def _run_case_in(case: dict, res: dict, fail, backend: str) -> dict:
 
         # ---- correspondence: saveStore (restore-in-finally)
         phase = {None: "none", "lazy_raises": "unload", "validate": "unload", "exists": "unload",
-                 "missing_ext": "unload", "early": "early", "serialize": "serialize",
+                 "missing_ext": "unload", "early": "early", "dup_name": "early", "serialize": "serialize",
                  "small_lazy_raises": "serialize", "format": "protoSave"}[expect_fail]
         if backend == "st" and expect_fail == "small_lazy_raises":
             phase = "serialize"
@@ -790,7 +790,7 @@ def gen_fail_case(rng: random.Random, backend: str) -> dict:
     mode = rng.choice(["lazy_raises", "serialize", "format", "validate", "early", "exists", "missing_ext",
                        "small_lazy_raises"])
     if backend == "st" and mode in ("validate", "early", "exists", "missing_ext"):
-        mode = rng.choice(["lazy_raises", "serialize", "format"])
+        mode = rng.choice(["lazy_raises", "serialize", "format", "dup_name"])
     # external sources in the destination file would be invalidated; keep them out of failing saves? no: keep.
     i = len(specs)
     if mode == "lazy_raises":
@@ -801,6 +801,10 @@ def gen_fail_case(rng: random.Random, backend: str) -> dict:
         case["thr"] = max(case["thr"], 256)
         if backend == "st":
             case["thr"] = max(case["thr"], 9)
+    elif mode == "dup_name":
+        # safetensors keys are names: the same initializer name in two graphs is rejected up front
+        specs.append({"kind": "mem", "dtype": "UINT8", "shape": [3], "seed": 5, "name": "same", "graph": 0})
+        specs.append({"kind": "mem", "dtype": "UINT8", "shape": [3], "seed": 6, "name": "same", "graph": 2})
     elif mode == "validate":
         case["workers"] = 0
     elif mode == "early":
@@ -1048,10 +1052,16 @@ def run(ctx: Ctx) -> None:
         ctx.count("corpus_cases", len(corpus))
     part_a(ctx)
     cases = grid_cases()
-    if True:
+    if ctx.quick:
+        # the 64 KiB-aligned part of the grid writes large sparse files: one destination naming only
+        cases = [c for c in cases if c["al"] != 65536 or c["dest"] == DESTS[0][0]]
+        ctx.exhaustive_scopes.append("parameter grid of DESIGN 5/C07: 5 thresholds x 4 alignments x 5 shard limits x 3 "
+                                     "worker counts x 2 backends x 3 destination namings over the 10-kind model "
+                                     "(quick tier: alignment 65536 with the first destination naming only)")
+    else:
         ctx.exhaustive_scopes.append("parameter grid of DESIGN 5/C07: 5 thresholds x 4 alignments x 5 shard limits x 3 "
                                      "worker counts x 2 backends x 3 destination namings over the 10-kind model")
-    nrand = ctx.pick(1500, 20000)
+    nrand = ctx.pick(1200, 20000)
     for _ in range(nrand):
         backend = "raw" if ctx.rng.random() < 0.7 else "st"
         cases.append(gen_case(ctx.rng, backend))
